@@ -405,13 +405,22 @@ def sc_vector(V, P, cfg):
             except AssertionError:
                 K.true(lab + ":refused", True, "direction-vector")
             continue
-        m = pym.OverhangFilter(pym.Signal("x", np.zeros(dom.nel)), domain=dom, direction=_container(V, comps, how))
+        cont = _container(V, comps, how)
+        m = pym.OverhangFilter(pym.Signal("x", np.zeros(dom.nel)), domain=dom, direction=cont)
         d = m.direction
         K.true(lab + ":len", len(d) == 3, "direction-vector")
         exp = _unit(axis, sign)
         for a in range(3):
             K.eq(lab + ":d[%d]" % a, d[a], exp[a], "direction-vector")
-        obs[lab] = d
+        if how == "array":
+            # the caller's array is an argument: it keeps its values, and changing it later does not change the filter
+            for a in range(length):
+                K.eq(lab + ":argument-unchanged[%d]" % a, cont[a], comps[a], "direction-vector-argument")
+            cont[axis] = cont[axis] * (-3)
+            d2 = m.direction
+            for a in range(3):
+                K.eq(lab + ":d[%d]-after-the-caller-changed-the-array" % a, d2[a], exp[a], "direction-vector-argument")
+        obs[lab] = np.array(d, dtype=(object if V.symbolic else float), copy=True)
     return obs
 
 
